@@ -52,6 +52,9 @@ pub enum Sched {
     /// adversarial alternation: thread i runs `quanta[i % len]` consecutive steps, then the next
     /// runnable thread (round robin) gets the baton
     PingPong { quanta: Vec<u32> },
+    /// a scripted prefix: run thread `tid` for `steps` scheduling points, turn by turn, then fall
+    /// back to random scheduling with the given switch rate
+    Script { turns: Vec<(usize, u32)>, then_switch_ppm: u32 },
 }
 
 #[derive(Clone, Copy, Debug, PartialEq, Eq)]
@@ -88,10 +91,25 @@ pub struct Cfg {
     pub clock_lag_ppm: u32,
     pub clock_lag_max_ns: i64,
     pub clock_fail_ppm: u32,
+    /// virtual time consumed by every clock_gettime call (the clock advances on every read)
+    pub clock_read_cost_ns: i64,
     pub faults: Vec<FaultSpec>,
     pub hash_seed: u64,
     pub sandbox: std::path::PathBuf,
     pub trace: bool,
+    /// directed preemptions: when `thread` is about to perform its `nth` load (or store) of
+    /// location `loc`, thread `run` is scheduled for up to `steps` scheduling points first
+    pub preempts: Vec<Preempt>,
+}
+
+#[derive(Clone, Debug)]
+pub struct Preempt {
+    pub thread: usize,
+    pub store: bool,
+    pub loc: u8,
+    pub nth: u32,
+    pub run: usize,
+    pub steps: u32,
 }
 
 impl Default for Cfg {
@@ -109,10 +127,12 @@ impl Default for Cfg {
             clock_lag_ppm: 0,
             clock_lag_max_ns: 0,
             clock_fail_ppm: 0,
+            clock_read_cost_ns: 0,
             faults: Vec::new(),
             hash_seed: 0,
             sandbox: std::path::PathBuf::new(),
             trace: false,
+            preempts: Vec::new(),
         }
     }
 }
@@ -316,6 +336,10 @@ pub struct State {
     pct_changes: Vec<u64>,
     pct_low: i64,
     pct_streak: (Tid, u32),
+    script_pos: usize,
+    script_used: u32,
+    preempt_seen: Vec<u32>,
+    forced: Option<(usize, u32)>,
     pub(crate) frozen_by: Option<Tid>,
     panics: Vec<(u32, String)>,
 }
@@ -552,6 +576,26 @@ impl State {
                 self.begin_shutdown(None);
                 continue;
             }
+            if let Some((t, n)) = self.forced {
+                if n > 0 && t < self.th.len() && self.th[t].st == St::Runnable {
+                    self.forced = Some((t, n - 1));
+                    return Some(t);
+                }
+                self.forced = None;
+            }
+            if let Sched::Script { turns, .. } = &self.cfg.sched {
+                // a scripted prefix counts every scheduling point, also when only one thread can run
+                let turns = turns.clone();
+                while self.script_pos < turns.len() {
+                    let (t, n) = turns[self.script_pos];
+                    if self.script_used < n && t < self.th.len() && self.th[t].st == St::Runnable {
+                        self.script_used += 1;
+                        return Some(t);
+                    }
+                    self.script_pos += 1;
+                    self.script_used = 0;
+                }
+            }
             if runnable.len() == 1 {
                 return Some(runnable[0]);
             }
@@ -561,6 +605,31 @@ impl State {
                         if self.th[m].st == St::Runnable {
                             // threads being torn down at the end of a run are not worth exploring
                             let p = if self.ending { 0 } else { switch_ppm };
+                            if !self.decide_p(K_SWITCH, p) {
+                                return Some(m);
+                            }
+                            let others: Vec<Tid> = runnable.into_iter().filter(|&i| i != m).collect();
+                            let k = self.decide_n(K_PICK, others.len() as u32) as usize;
+                            return Some(others[k]);
+                        }
+                    }
+                    let k = if self.ending { 0 } else { self.decide_n(K_PICK, runnable.len() as u32) as usize };
+                    return Some(runnable[k]);
+                }
+                Sched::Script { turns, then_switch_ppm } => {
+                    // follow the script while it lasts
+                    while self.script_pos < turns.len() {
+                        let (t, n) = turns[self.script_pos];
+                        if self.script_used < n && t < self.th.len() && self.th[t].st == St::Runnable {
+                            self.script_used += 1;
+                            return Some(t);
+                        }
+                        self.script_pos += 1;
+                        self.script_used = 0;
+                    }
+                    if let Some(m) = me {
+                        if self.th[m].st == St::Runnable {
+                            let p = if self.ending { 0 } else { then_switch_ppm };
                             if !self.decide_p(K_SWITCH, p) {
                                 return Some(m);
                             }
@@ -753,6 +822,17 @@ pub(crate) fn yield_point(kind: EvKind, tag: &'static str, a: u64) -> bool {
     }
     if !(kind == EvKind::Point && (std::ptr::eq(tag, TAG_LOAD) || std::ptr::eq(tag, TAG_STORE))) {
         s.log(me, kind, tag, a, 0, 0);
+    } else if !s.cfg.preempts.is_empty() {
+        let is_store = std::ptr::eq(tag, TAG_STORE);
+        for i in 0..s.cfg.preempts.len() {
+            let p = s.cfg.preempts[i].clone();
+            if p.thread == me && p.store == is_store && (a & 0xff) as u8 == p.loc {
+                s.preempt_seen[i] += 1;
+                if s.preempt_seen[i] == p.nth {
+                    s.forced = Some((p.run, p.steps));
+                }
+            }
+        }
     }
     if let Sched::Pct { .. } = s.cfg.sched {
         let st = s.steps;
@@ -1275,6 +1355,7 @@ pub fn run(spec: RunSpec) -> RunReport {
     // three streams: schedule/memory decisions use `rng` directly
     let _ = splitmix(&mut rng);
     let (done_tx, done_rx) = std::sync::mpsc::channel::<()>();
+    let n_preempts = spec.cfg.preempts.len();
     let mut st = State {
         th: Vec::new(),
         done_tx,
@@ -1308,6 +1389,10 @@ pub fn run(spec: RunSpec) -> RunReport {
         pct_changes: Vec::new(),
         pct_low: 0,
         pct_streak: (usize::MAX, 0),
+        script_pos: 0,
+        script_used: 0,
+        preempt_seen: vec![0; n_preempts],
+        forced: None,
         frozen_by: None,
         panics: Vec::new(),
     };
